@@ -287,6 +287,10 @@ func (p *program) loadProgram() error {
 		log.Fatalf("load packages: %v", err)
 	}
 
+	if _, err := linter.ParseGoVersion(p.goVersion); err != nil {
+		return fmt.Errorf("invalid -go value: %v", err)
+	}
+
 	p.loadedPackages = pkgs
 	p.ctx = linter.NewContext(p.fset, sizes)
 	p.ctx.SetGoVersion(p.goVersion)
